@@ -352,6 +352,8 @@ class ParameterCollection(metaclass=_ParameterCollectionType):
             setattr(self, name, value)
         except TypeError:  # allows for history parameter tuples
             if isinstance(name, tuple):
+                if getattr(self, "readOnly", False):
+                    raise RuntimeError(f"Cannot set a read-only parameter {name}.")
                 self._hist[name] = value
             else:
                 raise
